@@ -332,6 +332,11 @@ class Program:
             if z.startswith("{closure@"):
                 return Closure(z, [])
             return FnPtr(z)
+        mm = re.search(r"\bATOM_[A-Z]+_((?:_[0-9A-F]{2})*)\b", c)
+        if mm:
+            from .models import Atom
+            hx = [h for h in mm.group(1).split("_") if h]
+            return Atom([ord(ch) for ch in bytes(int(h, 16) for h in hx).decode("utf-8")])
         if "promoted[" in c or c in self.fns:
             return self.eval_const_fn(m, c)
         # ZST fn items / unit structs / associated consts
@@ -382,6 +387,11 @@ class Program:
     # ---- ADT construction ------------------------------------------------------------------------------
     def make_adt(self, m, path, vals, names):
         p = strip_generics(path).strip()
+        mm = re.search(r"\bATOM_[A-Z]+_((?:_[0-9A-F]{2})*)$", p)
+        if mm and not vals:
+            from .models import Atom
+            hx = [h for h in mm.group(1).split("_") if h]
+            return Atom([ord(ch) for ch in bytes(int(h, 16) for h in hx).decode("utf-8")])
         if p.startswith("<"):
             p = norm_callee(path)
         segs = p.split("::")
@@ -402,7 +412,7 @@ class Program:
             return Enum("Option", "None", 0, [])
         # bare variant name (re-exported variants such as FromSet / StartTag / Public)
         owners = [(en, c) for en, cs in self.enums.items() for c in cs if last in c[0]]
-        if len(segs) == 1 and owners:
+        if len(segs) == 1 and owners and names is None:
             uniq = {en for en, _ in owners}
             if len(uniq) == 1 or any(en in BUILTIN_ENUMS for en, _ in owners):
                 en, c = sorted(owners, key=lambda o: o[0] not in BUILTIN_ENUMS)[0]
